@@ -6,6 +6,7 @@ import (
 	"sort"
 	"strings"
 
+	"github.com/ipfs/go-graphsync"
 	gsimpl "github.com/ipfs/go-graphsync/impl"
 	"github.com/ipfs/go-graphsync/zzverif/vsched"
 	"github.com/libp2p/go-libp2p/core/peer"
@@ -37,7 +38,7 @@ type exchangeObs struct {
 }
 
 // runExchange executes one request Q->R under the given schedule config.
-func runExchange(cfg vsched.Config, d *harness.DAG, sel harness.SelSpec, split harness.Split, qopts, ropts []gsimpl.Option) (*exchangeObs, *vsched.Sched) {
+func runExchange(cfg vsched.Config, d *harness.DAG, sel harness.SelSpec, split harness.Split, qopts, ropts []gsimpl.Option, exts ...graphsync.ExtensionData) (*exchangeObs, *vsched.Sched) {
 	obs := &exchangeObs{}
 	s := vsched.Run(cfg, func() {
 		f := harness.NewFixture(false)
@@ -45,7 +46,7 @@ func runExchange(cfg vsched.Config, d *harness.DAG, sel harness.SelSpec, split h
 		q := f.AddNode(peer.ID("Q"), qs, qopts...)
 		r := f.AddNode(peer.ID("R"), rs, ropts...)
 		q.RecordIncoming()
-		res := q.Request(f, r.ID, d.Root, sel.Node, harness.MkID(1))
+		res := q.Request(f, r.ID, d.Root, sel.Node, harness.MkID(1), exts...)
 		vsched.Quiesce()
 		obs.Visits = append(obs.Visits, res.Visits...)
 		obs.Errs = res.ErrStrings(d)
